@@ -7,7 +7,11 @@
              growth decisions and sizes, same out-of-memory points
    (K-outer) spec oracles evaluated on the implementation's own trace (exact tiling after every sweep, allocations
              inside free memory, objects = allocation history, sum_freed = unmarked bytes), the H3 audit verdict at
-             every collection, and the heap bound of steady-state workloads."""
+             every collection, and the heap bound of steady-state workloads.
+   round 2:  (G) the growth formula of sexp_grow_heap is translated from gc.c (Gen/C10_Consts.v grow_formula);
+             closedness with weak objects: harness/embed_c10_weak.c (ephemeron chains in chosen address orders, heap audit
+             after every collection), the Scheme workload `weak`, and the DumpChecker (premise / conclusion of
+             coq/C10/Closed.v sweep_inv_closed on the H3 heap dumps); growth stream and policy stream (embed_c10 modes 3, 4)."""
 import bisect, os, re, subprocess, sys, time
 from vlib import build as B
 
@@ -524,7 +528,7 @@ def workloads(thorough, rng=None):
         ws.append(("scheme-all-phases", "scm", [], ["all", "150", "1"], False, ("windows", 7, 12000, 1600000)))
         emb = [("emb-steady", [65536, 0, 60000, 11, 150, 0], True), ("emb-cycles", [65536, 0, 60000, 12, 400, 1], False),
                ("emb-oom", [65536, 1500000, 50000, 13, 300, 2], False), ("emb-steady-big", [262144, 0, 60000, 14, 1500, 0], True),
-               ("emb-growth-stream", [65536, 0, 4, 15, 16, 3], False)]
+               ("emb-growth-stream", [65536, 0, 4, 15, 16, 3], False), ("emb-policy-stream", [262144, 0, 0, 16, 16, 4], False)]
     else:
         for (nm, a, steady) in [("churn-small", ["churn", "600000", "1"], True), ("mixed-sizes", ["mixed", "150000", "2"], True),
                                 ("bursty", ["bursty", "80", "3"], False), ("records-tables", ["records", "150000", "4"], True),
@@ -538,6 +542,8 @@ def workloads(thorough, rng=None):
             emb.append(("emb-steady-%d" % sd, [65536 << (sd % 3), 0, 150000, 100 + sd, 100 + 150 * sd, 0], True))
             emb.append(("emb-cycles-%d" % sd, [65536 << (sd % 3), 0, 150000, 200 + sd, 200 + 100 * sd, 1], False))
             emb.append(("emb-oom-%d" % sd, [65536, 800000 + 300000 * sd, 100000, 300 + sd, 300, 2], False))
+            if sd < 3:
+                emb.append(("emb-policy-stream-%d" % sd, [262144 << sd, 0, 0, 500 + sd, 16, 4], False))
             if sd < 6:
                 emb.append(("emb-growth-stream-%d" % sd, [65536 << (sd % 3), 0, 4 + sd % 3, 400 + sd, 16, 3], False))
     for (nm, a, steady) in emb:
@@ -1169,6 +1175,9 @@ def run(ctx):
         if "growth-stream" in name and S.get("big_grows", 0) < 2 and w["rc"] == 0:
             ctx.broken("growth-stream:no-request-decided-growth", "workload %s produced %d growths decided by a request larger than 4/3 of the last segment"
                        % (name, S.get("big_grows", 0)))
+        if "policy-stream" in name and w["rc"] == 0 and ("LAYOUT ok" not in w["out"] or S["slow"] < 4) and not ctx.violations:
+            ctx.broken("policy-stream:not-realised", "workload %s did not realise its layout / its four slow paths (%s, %d slow paths): the four "
+                       "coalescing cases no longer decide a growth question each" % (name, w["out"].split("\n")[0], S["slow"]))
         if os.environ.get("VERIF_C10_PROFILE"):
             sys.stderr.write("C10 profile: %s run %.1fs model %.1fs total-so-far %.0fs allocs %d\n" % (name, w["secs"], S["model_secs"], time.time() - ctx.t0, S["allocs"]))
         ctx.sample(dict(workload=name, allocations=S["allocs"], collections=S["gcs"], slow_path=S["slow"], growths=S["grows"], oom=S["ooms"],
@@ -1181,7 +1190,8 @@ def run(ctx):
                 except OSError:
                     pass
     ctx.cov["generator_distribution"] = total
-    ctx.assume("the mark phase is an input of this model (the marked set at sweep entry is taken from the implementation's sweep log); that it equals reachability is C02's property")
+    ctx.assume("the mark phase is an input of this model (the marked set at sweep entry is taken from the implementation's sweep log); that it equals reachability is C02's / C16's "
+               "property; the premise sweep_inv_closed needs from it (marks closed under strong slots and live-key ephemeron values) is CHECKED on every dumped heap, not proved")
     ctx.assume("malloc never fails inside sexp_make_heap; SEXP_USE_FIXED_CHUNK_SIZE_HEAPS, the mmap variant and image loading (gc_heap.c) are outside the model")
     ctx.assume("heap sizes stay below 2^53 (the C evaluates the growth ratio test in double arithmetic; the model uses the exact rational comparison)")
     ctx.trust("the sweep-log hook (fixes/hook-C10-sweeplog.patch): prints what sexp_sweep is about to read and what it left")
